@@ -4,8 +4,11 @@ import TabulaModel.Lemmas.Markdown
 
 Theorems about `Model/Markdown.lean` (helper lemmas in `Lemmas/Markdown.lean`).  The reading
 side (`gfmSplitRow`, `gfmTable`, `parseAtx`, `parseListLine`) is the specification; the writing
-side mirrors the Go emitters.  Cells are arbitrary byte strings (any `Nat`s) without a
-backslash (byte 92): backslash-before-pipe is outside the property's list (DESIGN Appendix C).
+side mirrors the Go emitters.  Cells are arbitrary byte strings (any `Nat`s).  The theorems
+named `…_any` hold for every cell content, backslashes included (a backslash in front of a pipe,
+at the end of a cell, doubled): the reading spec takes `\|` for a literal pipe and every other
+backslash for cell text, so the writers' `|` → `\|` is exactly invertible.  The older statements
+with the hypothesis `NoBackslash` are kept (they are instances).
 -/
 namespace Tabula.C15
 open Tabula.A1 (Str dec)
@@ -117,15 +120,15 @@ theorem rows_rectangular (w : Writer) (n : Nat) (hn : 1 ≤ n) (t : List (List S
 
 def NoBackslashS (t : List (List SCell)) : Prop := ∀ r ∈ t, ∀ c ∈ r, 92 ∉ c.text
 
-theorem spans_roundtrip (w : Writer) (hw : w ≠ .model) (hd : dashCell w = [32, 45, 45, 45, 32])
-    (t : List (List SCell)) (hne : t ≠ []) (hn : 1 ≤ colCount t) (hbs : NoBackslashS t) :
+theorem spans_roundtrip_any (w : Writer) (hw : w ≠ .model) (hd : dashCell w = [32, 45, 45, 45, 32])
+    (t : List (List SCell)) (hne : t ≠ []) (hn : 1 ≤ colCount t) :
     gfmTable (renderSpan w t) = some (t.map (gridRow w (colCount t))) := by
   cases t with
   | nil => exact absurd rfl hne
   | cons hdr rows =>
     have hle := rowCols_le_colCount (hdr :: rows)
-    have h92 : ∀ r ∈ hdr :: rows, ∀ p ∈ spanPs w (colCount (hdr :: rows)) r, 92 ∉ p := fun r hr =>
-      spanPs_no w _ r 92 (by decide) (fun c hc => preCell_noBs w _ (hbs r hr c hc))
+    have h92 : ∀ r ∈ hdr :: rows, ∀ p ∈ spanPs w (colCount (hdr :: rows)) r, p.getLast? ≠ some 92 :=
+      fun r _ => spanPs_end w _ r
     have h10 : ∀ r ∈ hdr :: rows, ∀ p ∈ spanPs w (colCount (hdr :: rows)) r, 10 ∉ p := fun r hr =>
       spanPs_no w _ r 10 (by decide) (fun c _ => preCell_noNl w _)
     have e : renderSpan w (hdr :: rows) =
@@ -141,7 +144,7 @@ theorem spans_roundtrip (w : Writer) (hw : w ≠ .model) (hd : dashCell w = [32,
         rw [List.map_map]
         exact flatMap_lines (fun r => 124 :: rowBody (spanPs w (colCount (hdr :: rows)) r)) rows
       rw [this]; simp
-    rw [e, gfmTable_psLines (colCount (hdr :: rows)) hn _ (dashCell w) _
+    rw [e, gfmTable_psLines_end (colCount (hdr :: rows)) hn _ (dashCell w) _
       (length_spanPs w _ hdr (hle hdr (by simp)))]
     · simp [map_trim_spanPs]
     · intro ps hps
@@ -158,6 +161,11 @@ theorem spans_roundtrip (w : Writer) (hw : w ≠ .model) (hd : dashCell w = [32,
     · intro ps hps
       rcases List.mem_map.mp hps with ⟨r, hr, rfl⟩
       exact h10 r (List.mem_cons_of_mem _ hr)
+
+theorem spans_roundtrip (w : Writer) (hw : w ≠ .model) (hd : dashCell w = [32, 45, 45, 45, 32])
+    (t : List (List SCell)) (hne : t ≠ []) (hn : 1 ≤ colCount t) (_hbs : NoBackslashS t) :
+    gfmTable (renderSpan w t) = some (t.map (gridRow w (colCount t))) :=
+  spans_roundtrip_any w hw hd t hne hn
 
 /-- **table_roundtrip with merged cells (docx)**: any rows of cells with any `ColSpan`
 (values < 1 count as 1) and any vertical-merge continuations read back as the grid: each
@@ -218,6 +226,102 @@ theorem docx_pinned_ragged_counterexample :
 /-- F5, pinned: a vertical-merge continuation in column 0 shifts the row's text one column left -/
 theorem docx_pinned_shift_counterexample :
     gfmSplitRow (renderSpanRowPinned .docx 2 [⟨[], 1, true⟩, ⟨[120], 1, false⟩]) = [[120], []] := by decide
+
+/-! ### cells of ANY bytes: backslashes too -/
+
+/-- **table_roundtrip_any (every writer, every cell content)**: a table of `n ≥ 1` columns whose
+cells are ANY byte strings — `|`, newlines, empty cells, and backslashes wherever they stand: in
+front of a pipe (`^(yes\|no)$`), at the end of a cell (`C:\`), doubled — rendered by writer `w`,
+is read by a GFM reader as the same rows × columns of the writer's normalised cell texts.  No
+hypothesis on the cell content is left. -/
+theorem table_roundtrip_any (w : Writer) (n : Nat) (hn : 1 ≤ n) (t : List (List Str)) (hne : t ≠ [])
+    (hrect : Rect n t) :
+    gfmTable (render w t) = some (t.map (List.map (normCell w))) := by
+  cases t with
+  | nil => exact absurd rfl hne
+  | cons hdr rows =>
+    exact gfmTable_render_any w n hn hdr rows (hrect hdr (by simp))
+      (fun r hr => hrect r (List.mem_cons_of_mem _ hr))
+
+/-- `model.Table.ToMarkdown` (also the table chunks of the PDF / RAG pipeline) -/
+theorem table_roundtrip_model_any (n : Nat) (hn : 1 ≤ n) (t : List (List Str)) (hne : t ≠ [])
+    (hrect : Rect n t) :
+    gfmTable (render .model t) = some (t.map (List.map fun c => trim (nlToSpace c))) :=
+  table_roundtrip_any .model n hn t hne hrect
+
+/-- every writer on cells without a carriage return: newline → space, trimmed, nothing else -/
+theorem table_roundtrip_noCR_any (w : Writer) (n : Nat) (hn : 1 ≤ n) (t : List (List Str)) (hne : t ≠ [])
+    (hrect : Rect n t) (hcr : ∀ r ∈ t, ∀ c ∈ r, 13 ∉ c) :
+    gfmTable (render w t) = some (t.map (List.map fun c => trim (nlToSpace c))) := by
+  rw [table_roundtrip_any w n hn t hne hrect]
+  congr 1
+  apply List.map_congr_left; intro r hr
+  apply List.map_congr_left; intro c hc
+  exact normCell_noCR w c (hcr r hr c hc)
+
+theorem rows_rectangular_any (w : Writer) (n : Nat) (hn : 1 ≤ n) (t : List (List Str))
+    (hrect : Rect n t) :
+    (∀ r ∈ t, (gfmSplitRow (renderRow w r)).length = n) ∧
+      (gfmSplitRow (renderDelim w n)).length = n := by
+  constructor
+  · intro r hr
+    have hne : r ≠ [] := by intro e; have := hrect r hr; rw [e] at this; simp at this; omega
+    rw [gfmSplitRow_renderRow_any w r hne, List.length_map, hrect r hr]
+  · rw [gfmSplitRow_renderDelim w n hn, List.length_replicate]
+
+theorem table_roundtrip_spans_docx_any (t : List (List SCell)) (hne : t ≠ []) (hn : 1 ≤ colCount t) :
+    gfmTable (renderSpan .docx t) = some (t.map (gridRow .docx (colCount t))) :=
+  spans_roundtrip_any .docx (by decide) rfl t hne hn
+
+theorem table_roundtrip_spans_odt_any (t : List (List SCell)) (hne : t ≠ []) (hn : 1 ≤ colCount t) :
+    gfmTable (renderSpan .odt t) = some (t.map (gridRow .odt (colCount t))) :=
+  spans_roundtrip_any .odt (by decide) rfl t hne hn
+
+theorem rows_rectangular_spans_any (w : Writer) (hw : w ≠ .model) (t : List (List SCell)) :
+    (∀ r ∈ t, (gfmSplitRow (renderSpanRow w (colCount t) r)).length = colCount t) ∧
+      (gfmSplitRow (delimPipe (delimPiece w) (colCount t))).length = colCount t :=
+  by
+  constructor
+  · intro r hr
+    rw [renderSpanRow_eq, gfmSplitRow_rowLine_end, List.length_map,
+      length_spanPs w _ r (rowCols_le_colCount t r hr)]
+    exact spanPs_end w _ r
+  · rw [delimPipe_eq w hw, gfmSplitRow_rowLine, List.length_map, List.length_replicate]
+    intro p hp
+    rw [List.eq_of_mem_replicate hp]
+    cases w <;> decide
+
+/-- non-vacuity: `^(a\|b)`-like cells — a backslash in front of a pipe, a cell that is one
+backslash, two backslashes in front of a pipe, a backslash at the end of a cell next to a cell that
+is one pipe — through every writer -/
+example : ∀ w : Writer,
+    gfmTable (render w [[[97, 92, 124, 98], [92]], [[92, 92, 124], [124]], [[120, 92], [124, 92]]])
+      = some [[[97, 92, 124, 98], [92]], [[92, 92, 124], [124]], [[120, 92], [124, 92]]] := by
+  intro w; cases w <;> decide
+
+/-- an escaper that "avoids double escaping": a pipe that already follows a backslash gets no
+backslash of its own (`prev` = the byte before) -/
+def escPipeSkip (prev : Nat) : Str → Str
+  | [] => []
+  | c :: s => (if c = 124 ∧ prev ≠ 92 then [92, 124] else [c]) ++ escPipeSkip c s
+
+/-- such an escaper agrees with `escPipe` on every cell without the sequence backslash + pipe — -/
+theorem escPipeSkip_eq_of_noBs (prev : Nat) (s : Str) (hp : prev ≠ 92) (h : 92 ∉ s) :
+    escPipeSkip prev s = escPipe s := by
+  induction s generalizing prev with
+  | nil => rfl
+  | cons c s ih =>
+    have hc : c ≠ 92 := fun e => h (by simp [e])
+    have hs : 92 ∉ s := fun e => h (List.mem_cons_of_mem _ e)
+    by_cases h1 : c = 124
+    · subst h1; rw [escPipe_cons_pipe, escPipeSkip, ih _ hc hs]; simp [hp]
+    · rw [escPipe_cons_ne _ _ h1, escPipeSkip, ih _ hc hs]; simp [h1]
+
+/-- — and loses the source backslash where the sequence occurs: the cell `a\|b` is written as it
+stands and read back as `a|b`, while `escPipe` writes `a\\|b`, which reads back as `a\|b`. -/
+theorem skip_escaped_pipe_counterexample :
+    gfmSplitRow (rowModel [escPipeSkip 0 [97, 92, 124, 98]]) = [[97, 124, 98]] ∧
+      gfmSplitRow (renderRow .model [[97, 92, 124, 98]]) = [[97, 92, 124, 98]] := by decide
 
 /-! ## headings -/
 
